@@ -102,6 +102,28 @@ def plan(tier, seed):
              "oversamp": ov, "width": w, "toeplitz": True, "aseed": int(rng.integers(1 << 30))}
         d["oshape"] = d["ishape"][:-nd] + [M]
         P.add("toeplitz", desc=d)
+    # a trajectory of more than 2**20 samples (golden-angle radial, a long spiral train) on a
+    # small image: the Toeplitz kernel is accumulated over every sample
+    for i in range(1 if quick else 4):
+        g_ = int(pick(rng, [48, 64]))
+        M = int(pick(rng, [(1 << 20) + 77777, 1572864 + 5, (1 << 21) + 11]))
+        d = {"op": "NUFFT", "ishape": [g_, g_], "nd": 2, "pts": [M], "ccls": "inside",
+             "oversamp": 1.25, "width": 4, "toeplitz": True, "aseed": int(rng.integers(1 << 30))}
+        d["oshape"] = [M]
+        P.add("toeplitz", desc=d, timeout=900, force_double=True)
+    # wavelets PyWavelets flags as orthogonal although they are so only approximately (the
+    # discrete Meyer wavelet), and biorthogonal ones, on axes long enough to be decomposed:
+    # A.N is still what A.H(A x) gives
+    for i, (wv, shp, lv) in enumerate([("dmey", [150], 1), ("dmey", [140, 6], 1),
+                                       ("bior4.4", [40, 9], 2), ("dmey", [260], None),
+                                       ("rbio3.5", [64], 2)]):
+        ax_ = None if len(shp) == 1 else [0]
+        d = {"op": "Wavelet", "ishape": shp, "axes": ax_, "wave": wv, "level": lv,
+             "oshape": lops.wavelet_coeff_shape(shp, wv, ax_, lv)}
+        P.add("big:Wavelet", desc=d)
+        d2 = {"op": "InverseWavelet", "oshape": shp, "axes": ax_, "wave": wv, "level": lv,
+              "ishape": lops.wavelet_coeff_shape(shp, wv, ax_, lv)}
+        P.add("big:InverseWavelet", desc=d2)
     rng = P.rng("tree")
     for i in range(300 if quick else 8000):
         depth = int(rng.integers(1, 3 if quick else 4))
@@ -156,7 +178,13 @@ def run_one(case):
                      sep_bound(ov_ if ov_ in (1.25, 2, 2.0) else 1.25, desc["nd"]))
         tol = 4 * eps_nd
         coord = lops.leaf_arrays(desc)["coord"]
-        opn = float(np.linalg.norm(ONDFT.ndft_matrix(coord, desc["ishape"][-desc["nd"]:]), 2))
+        N_ = int(np.prod(desc["ishape"][-desc["nd"]:]))
+        if coord.shape[0] * N_ <= 5e7:
+            opn = float(np.linalg.norm(ONDFT.ndft_matrix(coord, desc["ishape"][-desc["nd"]:]), 2))
+        else:
+            # (no matrix for a million samples: for coordinates drawn uniformly over the field
+            # of view E^H E is close to (M / N) I)
+            opn = 1.3 * float(np.sqrt(coord.shape[0] / N_))
     else:
         tol = 1e-10
     single = (not toep) and sum(case["rs"]) % 6 == 0 and not case.get("force_double")
